@@ -28,26 +28,62 @@ def mailbox_programs(tier):
     P.append(('handles_sender_only', None, {'c1': [('downgrade', A, 'w'), ('mk_weak_caller', A, 'wc'), ('mk_sender', A, 's'), ('drop', A), ('upgrade', 'w'), ('upgrade_caller', 'wc'), ('sender_send', 's', 'ctxstop:1')]}, 0, 'q'))
     P.append(('handles_last_drop_drains', 1, {'c1': [('send', A, 'a1'), ('send', A, 'a2'), ('downgrade', A, 'w'), ('drop', A), ('upgrade', 'w')]}, 1, 'q'))
     P.append(('handles_upgrade_revives', None, {'c1': [('downgrade', A, 'w'), ('clone', A, 'a2'), ('drop', A), ('upgrade', 'w', 'a3'), ('drop', 'a2'), ('call', 'a3', 'a1'), ('drop', 'a3'), ('upgrade', 'w')]}, 0, 'q'))
-    P.append(('handles_two_tasks', None, {'c1': [('mk_sender', A, 's'), ('drop', A), ('sender_send', 's', 'a1'), ('drop', 's')], 'c2': [('downgrade', A, 'w'), ('upgrade', 'w')]}, 0, 't'))
+    P.append(('handles_two_tasks', None, {'c1': [('mk_sender', A, 's'), ('drop', A), ('sender_send', 's', 'a1'), ('drop', 's')], 'c2': [('upgrade', 'w'), ('upgrade', 'w')]}, 0, 't', (('downgrade', A, 'w'),)))
     P.append(('flags_unawaited', None, {'c1': [('running', A), ('stop', A), ('ping', A), ('stopped', A), ('running', A)]}, 0, 'q'))
     P.append(('flags_awaited', None, {'c1': [('clone', A, 'a2'), ('stop', A), ('await', 'a2'), ('stopped', A), ('downgrade', A, 'w'), ('weak_stopped', 'w')]}, 0, 'q'))
     return [p for p in P if tier == 'thorough' or p[4] == 'q']
 
 
-def run(functions, enums, repo, tier, max_steps=60):
+def evaluate(tr, status, cap, scripts, sym_n=None):
+    """all oracles on one trace -> {pid: [messages]} (cap: None | int)"""
+    out = {k: [] for k in ('C01', 'C02', 'C04', 'C05', 'C12', 'C14', 'C15')}
+    out['C01'] += oracle_fifo(tr, scripts)
+    out['C02'] += oracle_own_result(tr, scripts)
+    out['C02'] += oracle_resolves(tr, status, scripts)
+    out['C04'] += oracle_stop_barrier(tr, scripts)
+    if cap != 'sym':
+        out['C12'] += oracle_backpressure(tr, cap, scripts)
+    c05, c15 = oracle_handles(tr, status, scripts)
+    out['C05'] += c05
+    out['C15'] += c15
+    out['C14'] += oracle_liveness_flags(tr, scripts)
+    return out
+
+
+def run(functions, enums, repo, tier, max_steps=60, seed=0, validate=None):
     results = {k: [] for k in ('C01', 'C02', 'C04', 'C05', 'C12', 'C14', 'C15')}
     stats = {'paths': 0, 'solver_calls': 0, 'solver_s': 0.0, 'steps': 0, 'bound': 0, 'truncated': 0, 'programs': [],
              'functions': set(), 'modelled': {}, 'opaque': {}, 'samples': [], 'distinct_traces': 0}
     distinct = set()
     t0 = time.time()
-    for (name, cap, scripts, hp, _tag) in mailbox_programs(tier):
+    import random
+    import replay as RP
+    rnd = random.Random(seed)
+    binary = RP.build()
+    validate = validate if validate is not None else (6 if tier == 'quick' else 40)
+    stats['traces_validated_against_impl'] = 0
+    stats['native_mismatches'] = []
+    stats['native_confirmations'] = {}
+    for prog in mailbox_programs(tier):
+        (name, cap, scripts, hp, _tag) = prog[:5]
+        pre = prog[5] if len(prog) > 5 else ()
         sy = Sys(functions, enums, repo)
-        p = MailboxProgram(sy, cap, scripts, handler_pending=hp, max_steps=max_steps)
+        p = MailboxProgram(sy, cap, scripts, handler_pending=hp, max_steps=max_steps, pre=pre)
         st = p.setup()
         n = 0
+        reservoir = []
+        first_witness = {}
         for leaf in p.explore(st):
             n += 1
             tr = leaf.events[leaf.events.index(('setup_done',)) + 1:]
+            # reservoir sample of schedules for native validation
+            if leaf.status == 'quiescent':
+                if len(reservoir) < validate:
+                    reservoir.append((leaf, tr))
+                else:
+                    j = rnd.randrange(n)
+                    if j < validate:
+                        reservoir[j] = (leaf, tr)
             if leaf.status == 'truncated':
                 stats['truncated'] += 1
                 continue
@@ -59,7 +95,9 @@ def run(functions, enums, repo, tier, max_steps=60):
 
             def add(pid, msgs, extra=None):
                 for m in msgs:
-                    results[pid].append(dict(prog=name, cap=str(cap), msg=m, trace=tr, choices=[str(c) for c in leaf.choices], extra=extra))
+                    rec = dict(prog=name, cap=str(cap), msg=m, trace=tr, choices=[str(c) for c in leaf.choices], extra=extra)
+                    results[pid].append(rec)
+                    first_witness.setdefault((pid, m), (leaf, tr, rec))
             add('C01', oracle_fifo(tr, scripts))
             add('C02', oracle_own_result(tr, scripts))
             add('C02', oracle_resolves(tr, leaf.status, scripts))
@@ -70,7 +108,7 @@ def run(functions, enums, repo, tier, max_steps=60):
                 for b in behind:
                     if sy.eng.feasible(leaf, p.n < b):
                         m = sy.eng.model(leaf, p.n < b)
-                        add('C12', [f"{b} sends had returned Ok while their messages were still queued in a mailbox bounded to n={m[p.n]}"])
+                        add('C12', [f"{b} sends had returned Ok while their messages were still queued in a mailbox bounded to a smaller n"], extra=b)
             else:
                 add('C12', oracle_backpressure(tr, cap, scripts))
             c05, c15 = oracle_handles(tr, leaf.status, scripts)
@@ -80,6 +118,42 @@ def run(functions, enums, repo, tier, max_steps=60):
             distinct.add(hash((name, tuple(tr))))
             if len(stats['samples']) < 8 and n % 53 == 1:
                 stats['samples'].append({'program': name, 'capacity': str(cap), 'status': leaf.status, 'trace': [list(map(str, e)) for e in tr][:60]})
+        # ---- native validation: replay sampled schedules on the real crates, poll by poll
+        for leaf, tr in reservoir:
+            ncap = cap
+            if cap == 'sym':
+                m = sy.eng.model(leaf)
+                ncap = m.eval(p.n, model_completion=True).as_long()
+            nat, err = RP.run_native(binary, ncap, scripts, tr, pre=pre)
+            if err:
+                stats['native_mismatches'].append(f"{name}: {err}")
+                continue
+            same, diff = RP.same_observable(tr, nat)
+            if same:
+                stats['traces_validated_against_impl'] += 1
+            else:
+                stats['native_mismatches'].append(f"{name}: {diff}")
+        # ---- native confirmation of every distinct violation (first witness)
+        for (pid, m), (leaf, tr, rec) in first_witness.items():
+            ncap = cap
+            if cap == 'sym':
+                mdl = sy.eng.model(leaf, p.n < rec['extra']) if rec.get('extra') is not None else sy.eng.model(leaf)
+                ncap = mdl.eval(p.n, model_completion=True).as_long()
+            nat, err = RP.run_native(binary, ncap, scripts, tr, pre=pre)
+            confirmed = False
+            why = err
+            if nat is not None:
+                nst = 'quiescent' if leaf.status == 'quiescent' else leaf.status
+                nres = evaluate(nat, nst, ncap, scripts)
+                confirmed = m in nres[pid] or (pid == 'C12' and any('sends had returned Ok' in x for x in nres[pid]))
+                if not confirmed:
+                    why = f"native run of the same schedule does not show it (native {pid} findings: {nres[pid][:2]})"
+            for r in results[pid]:
+                if r['prog'] == name and r['msg'] == m:
+                    r['native_confirmed'] = confirmed
+                    r['native_note'] = why
+                    r['native_capacity'] = str(ncap)
+            stats['native_confirmations'][f"{pid}:{name}:{m}"] = confirmed
         e = sy.eng
         stats['paths'] += n
         stats['solver_calls'] += e.stats.solver_calls
@@ -90,7 +164,7 @@ def run(functions, enums, repo, tier, max_steps=60):
             stats['modelled'][k] = stats['modelled'].get(k, 0) + v
         for k, v in e.stats.opaque.items():
             stats['opaque'][k] = stats['opaque'].get(k, 0) + v
-        stats['programs'].append(dict(name=name, capacity=str(cap), scripts={k: [list(o) for o in v] for k, v in scripts.items()}, handler_pending=hp, schedules=n))
+        stats['programs'].append(dict(name=name, capacity=str(cap), pre=[list(o) for o in pre], scripts={k: [list(o) for o in v] for k, v in scripts.items()}, handler_pending=hp, schedules=n))
     stats['wall_s'] = time.time() - t0
     stats['distinct_traces'] = len(distinct)
     stats['functions'] = sorted(stats['functions'])
